@@ -192,6 +192,18 @@ static KM genKM(const KMOpt& o)
   return c;
 }
 
+// the generators of some sub-properties keep a usable datum at least: with none, several operations abort
+// (sanitizer) and that would end the search; those inputs are kept as replay-only cases
+static void ensureUsable(KM& c)
+{
+  if (c.n() == 0 || c.nRemoved() < c.n()) return;
+  if (!c.k.sel.empty()) c.k.sel[0] = 1;
+  if (!c.naCoord.empty()) c.naCoord[0] = 0;
+  for (int v = 0; v < c.k.nvar; v++)
+    if (!c.k.zdef(0, v)) c.k.z[(size_t)v] = -3.25;
+}
+static bool unsafeRegions() { static int u = getenv("C05_UNSAFE") ? 1 : 0; return u != 0; }
+
 // the masked problem as a KCase (undefined coordinates written into the data)
 static KCase maskedCase(const KM& c)
 {
@@ -327,8 +339,30 @@ struct Gate
   std::unique_ptr<Model> om;
   std::unique_ptr<Oracle> orc;
   double eta = 0;
+  double fieldMin = 0; // field extension used on the masked side (intrinsic structures: the round-off level follows it)
   std::map<int, Sys> cache;
   Gate(const KCase& rr, World& w) : r(rr), w2(w) {}
+  // diagonal of the bounding box of all rows (masked or not, defined coordinates only) and of the targets: what
+  // KrigingSystem gives to its model today
+  void useFieldOf(const KCase& m, const Db* dbout)
+  {
+    double diag = 0;
+    for (int d = 0; d < m.ndim; d++)
+    {
+      double lo = 1e300, hi = -1e300;
+      for (int i = 0; i < m.n(); i++)
+        if (!na(m.data.at(i, d))) { lo = std::min(lo, m.data.at(i, d)); hi = std::max(hi, m.data.at(i, d)); }
+      for (int k = 0; k < dbout->getSampleNumber(); k++)
+      {
+        double v = dbout->getCoordinate(k, d);
+        if (na(v)) continue;
+        lo = std::min(lo, v);
+        hi = std::max(hi, v);
+      }
+      if (hi > lo) diag += (hi - lo) * (hi - lo);
+    }
+    fieldMin = std::sqrt(diag);
+  }
   Sys* sys(int k2)
   {
     if (!orc)
@@ -336,7 +370,7 @@ struct Gate
       Ctx dummy;
       om = buildModel(r, dummy);
       if (!om) return nullptr;
-      om->setField(Oracle::fieldOf(r, w2.dbout.get()));
+      om->setField(std::max(fieldMin, Oracle::fieldOf(r, w2.dbout.get())));
       orc.reset(new Oracle(r, om.get()));
       eta = etaIn(r);
     }
@@ -490,6 +524,7 @@ static void runKrig(const KM& c, Ctx& ctx)
       diag(sa);
     }
   Gate gate(r, w2);
+  gate.useFieldOf(m, w1.dbout.get());
   int nCmp = 0, nInc = 0;
   bool matter = false;
   for (size_t q = 0; q < kt.size(); q++)
@@ -584,7 +619,7 @@ static KM genKrigNaCoord()
 {
   KMOpt o;
   o.g.movingPct = 40;
-  o.g.sectorPct = 0;
+  o.g.sectorPct = unsafeRegions() ? 60 : 0;
   o.naCoordPct = 100;
   o.allNaPct = 10;
   return genKM(o);
@@ -706,6 +741,7 @@ static void runXvalid(const KM& c0, Ctx& ctx)
       Ctx dummy;
       if (!buildWorld(rq, wq, dummy)) { nInc++; continue; }
       Gate gate(rq, wq);
+      gate.useFieldOf(m, w1.dbin.get());
       Sys* S = gate.sys(0);
       if (!S || !S->solved || !(S->kappa <= kKappaMax)) { nInc++; continue; }
       if (na(a) != na(b) || std::isnan(a) || std::isnan(b))
@@ -761,14 +797,14 @@ static void runSimtub(const KM& c, Ctx& ctx)
   for (auto& s : k.st) nug = nug || s.type == T_NUGGET;
   std::string V = maskKind(c) + ":" + (k.moving ? "moving" : "unique") + (nug ? "-nugget" : "");
   // no usable datum at all (empty selection ...): the conditional simulation allocates 4 GB and aborts
-  // (replay-only finding simtub-no-active-data.case); not generated as it would end the search
-  if (kd.empty()) { ctx.label("skipped:simtub-no-active-data"); return; }
+  // (replay-only finding simtub-no-active-data.case); not generated (genSimtub) as it would end the search
+  if (kd.empty()) ctx.label("simtub-no-active-data");
   Snap in1 = snapOf(w1.dbin.get()), out1 = snapOf(w1.dbout.get());
   ctx.at("simtub:" + V);
   int e1 = simtub(w1.dbin.get(), w1.dbout.get(), w1.model.get(), w1.neigh.get(), c.nbsimu, c.seed, c.nbtuba);
   std::string what;
   if (!snapUnchanged(in1, w1.dbin.get(), what)) { ctx.fail("simtub:data-cells:" + V, "cells of the data Db changed: " + what); return; }
-  if (kt.empty()) { ctx.label("reduced:no-target"); targetSide(c, out1, w1.dbout.get(), "simtub", V, ctx); return; }
+  if (kt.empty() || kd.empty()) { ctx.label("reduced:none"); targetSide(c, out1, w1.dbout.get(), "simtub", V, ctx); return; }
   Snap out2 = snapOf(w2.dbout.get());
   resetGlobals(k.ndim);
   int e2 = simtub(w2.dbin.get(), w2.dbout.get(), w2.model.get(), w2.neigh.get(), c.nbsimu, c.seed, c.nbtuba);
@@ -781,6 +817,7 @@ static void runSimtub(const KM& c, Ctx& ctx)
     return;
   }
   Gate gate(r, w2);
+  gate.useFieldOf(m, w1.dbout.get());
   double sc = zScale(r) + 6 * sillScale(r);
   int nCmp = 0, nInc = 0;
   bool matter = false;
@@ -822,12 +859,15 @@ static KM genSimtub()
   o.g.movingPct = 30;
   o.g.verrPct = 0;
   o.g.onDataPct = 10;
+  // an undefined coordinate in an active datum gives (int) ceil(1e30 / eps) in the band generator (UB, line 536)
+  o.naCoordPct = unsafeRegions() ? 25 : 0;
   KM c = genKM(o);
   // structures the turning bands can simulate
   for (auto& s : c.k.st)
     if (s.type != T_NUGGET && s.type != T_EXPONENTIAL && s.type != T_SPHERICAL && s.type != T_GAUSSIAN && s.type != T_CUBIC)
       s.type = T_EXPONENTIAL; // (stable / Matern structures with a small parameter make the band generator allocate GBs: C13's matter)
   c.k.flagVarz = 0;
+  if (!unsafeRegions()) ensureUsable(c);
   return c;
 }
 VERIF_SUB(simtub_cond, KM, genSimtub, runSimtub);
@@ -863,9 +903,6 @@ static void runGlobal(const KM& c0, Ctx& ctx)
     return ok;
   };
   Global_Result g1, g2;
-  // all data masked: global_kriging dereferences a null right-hand side (KrigingSystem::getRHSC), recorded
-  // as a replay-only finding (a sanitizer abort would end the search)
-  if (!arith && kd.empty()) { ctx.label("skipped:global-krig-no-data"); return; }
   bool ok1 = call(w1, g1);
   std::string what;
   if (!snapUnchanged(in1, w1.dbin.get(), what)) { ctx.fail(V + ":data-cells", "cells of the data Db changed: " + what); return; }
@@ -886,6 +923,7 @@ static void runGlobal(const KM& c0, Ctx& ctx)
   double zs = zScale(r), ss = sillScale(r);
   // kappa of the (unique neighbourhood) system
   Gate gate(r, w2);
+  gate.useFieldOf(m, w1.dbout.get());
   double tolRel = 1e-9;
   if (!arith)
   {
@@ -925,7 +963,10 @@ static KM genGlobal()
   c.op = G::i(0, 7);
   // global_kriging with several variables overflows the heap whatever the selection (matrix_product_safe called
   // with nvar columns on single-column arrays, CalcGlobal.cpp:160): replay-only case global-kriging-nvar2.case
-  if (c.k.nvar > 1) c.op |= 1;
+  if (c.k.nvar > 1 && !unsafeRegions()) c.op |= 1;
+  // all data masked: global_kriging dereferences a null right-hand side (KrigingSystem::getRHSC, line 3014):
+  // replay-only case global-kriging-no-active-data.case
+  if (!(c.op & 1) && !unsafeRegions()) ensureUsable(c);
   return c;
 }
 VERIF_SUB(global_grid, KM, genGlobal, runGlobal);
@@ -1136,7 +1177,7 @@ static VarioC genVario()
   // an undefined coordinate other than the first one reaches DirParam::getLagRank with a distance of 1e30:
   // (int) floor(1e30) is undefined behaviour (UBSan abort; replay-only case vario-nacoord-lagrank.case).
   // With the first coordinate undefined the sample sorts last and the 1-D distance test stops the pair loop.
-  o.naFirstCoordOnly = true;
+  o.naFirstCoordOnly = !unsafeRegions();
   c.d = genDbC(o);
   c.calc = G::pick<int>({0, 0, 0, 1, 1, 2, 3, 4, 5, 7, 8});
   if (c.calc == 6) c.calc = 0;
@@ -1247,6 +1288,7 @@ static StatC genStat()
   c.proba = G::pick<double>({0.1, 0.25, 0.5, 0.9});
   // no cut-offs vmin / vmax: dbStatisticsMono always computes a median from the values inside the cut-offs with
   // the rank of the whole set and reads beyond the array (not a masking matter; ASan abort)
+  if (unsafeRegions() && G::pct(40)) { c.vmin = G::r(-20, 0, 2); c.vmax = c.vmin + G::r(1, 30, 2); }
   c.multiOper = G::i(0, 5);
   return c;
 }
@@ -1532,6 +1574,18 @@ static MigC genMig()
   std::vector<Points> extra;
   c.d = genDbC(o, 1, &extra, {nt});
   if (c.mode >= 5) c.d.naCoord.clear();
+  // point -> grid with filling and no usable source sample (active, value defined): expandPointToGrid indexes an
+  // empty rank array (null dereference; replay-only case migrate-fill-no-active-source.case)
+  if (c.mode == 3 && !unsafeRegions())
+  {
+    bool any = false;
+    for (int i = 0; i < c.d.n(); i++) any = any || (c.d.active(i) && !na(c.d.zv(i, 0)));
+    if (!any)
+    {
+      if (!c.d.sel.empty()) c.d.sel[0] = 1;
+      c.d.z[0] = -3.25;
+    }
+  }
   int ndim = c.d.ndim;
   if (c.mode <= 1)
   {
@@ -1639,9 +1693,6 @@ static void runMig(const MigC& c, Ctx& ctx)
       addTargetExtras(t.get(), rows);
       return t;
     };
-    // point -> grid with filling and no usable source sample: expandPointToGrid indexes an empty rank array
-    // (null dereference; replay-only case migrate-fill-no-active-source.case)
-    if (keep.empty() && c.mode == 3) { ctx.label("skipped:p2g-fill-no-source"); return; }
     out1 = mkTarget(false);
     Snap sIn = snapOf(in1.get()), sOut = snapOf(out1.get());
     ctx.at(V);
@@ -1841,6 +1892,24 @@ static AnamC genAnam()
   o.naCoordPct = 0;
   o.weightPct = 30;
   c.d = genDbC(o);
+  // three usable values at least: with fewer the fit itself misbehaves, selection or not (index -1 in
+  // AnamHermite::_data_sort with one value, "Interval is not valid" thrown by AnamEmpirical with none): C18's matter
+  if (!unsafeRegions())
+  {
+    while (c.d.n() < 3)
+    {
+      double x[3] = {c.d.L * (2. + c.d.n()), c.d.L * 2., c.d.L * 2.};
+      c.d.pts.push(x);
+      c.d.z.push_back(1.5 * c.d.n());
+      if (!c.d.sel.empty()) c.d.sel.push_back(1);
+      if (!c.d.w.empty()) c.d.w.push_back(1.);
+    }
+    for (int i = 0; i < 3; i++)
+    {
+      if (!c.d.sel.empty()) c.d.sel[(size_t)i] = 1;
+      if (na(c.d.z[(size_t)i])) c.d.z[(size_t)i] = -7.5;
+    }
+  }
   // pairwise distinct values whatever the shrinking does (a constant variable is another matter: C18)
   for (int i = 0; i < c.d.n(); i++)
     if (!na(c.d.z[(size_t)i])) c.d.z[(size_t)i] += 0.03125 * i;
@@ -1868,13 +1937,6 @@ static void runAnam(const AnamC& c, Ctx& ctx)
   };
   std::unique_ptr<AAnam> a1 = mk(), a2 = mk();
   ctx.at(V);
-  // fewer than 3 usable values: the fit itself misbehaves (index -1 in AnamHermite::_data_sort with one value,
-  // "Interval is not valid" thrown by AnamEmpirical with none), with or without a selection: C18's matter
-  {
-    int nuse = 0;
-    for (int i : keep) nuse += na(d.zv(i, 0)) ? 0 : 1;
-    if (nuse < 3) { ctx.label("skipped:fewer-than-3-values"); return; }
-  }
   auto fit = [&](AAnam* a, Db* db) { return c.byName ? a->fit(db, "z1") : a->fitFromLocator(db, ELoc::Z); };
   int e1 = fit(a1.get(), db1.get());
   std::string what;
